@@ -12,6 +12,7 @@ import (
 	"runtime"
 	"strings"
 	"sync"
+	"sync/atomic"
 	"testing"
 	"testing/synctest"
 	"time"
@@ -364,7 +365,7 @@ var errAsyncAccepted = fmt.Errorf("accepted into the send queue")
 func TestC09CloseAtRetry(t *testing.T) {
 	ev.Rule("HSMS-SS, both roles, virtual time; backoff 10 ms x2, T5 40 ms; a Selected generation is dropped by the peer (close or reset), 0-2 re-dials are refused / re-listens fail, then the peer is reachable again; Close is called exactly when the next attempt is due (or 1 ms before / after). Oracle: Close returns nil within the close timeout; afterwards State() is NotConnected, every socket and listener handed to the library is closed, a peer that was accepted in the race reads EOF, and for 1 s nothing is dialled, listened or accepted; a re-Open then works; non-trivial = always")
 	vt.Bubble(t, func(t *testing.T) {
-		vt.CheckBubble(t, 2000, 100000, func(rt *rapid.T) {
+		vt.CheckBubble(t, 24000, 400000, func(rt *rapid.T) {
 			active := rapid.Bool().Draw(rt, "active")
 			refusals := rapid.IntRange(0, 2).Draw(rt, "refusals")
 			off := time.Duration(rapid.SampledFrom([]int{0, 0, 0, -1, 1}).Draw(rt, "offMs")) * time.Millisecond
@@ -430,6 +431,11 @@ func TestC09CloseAtRetry(t *testing.T) {
 				}
 			}()
 			time.Sleep(time.Until(dropAt.Add(due + off)))
+			// both goroutines are runnable at this virtual instant and run in parallel; a drawn busy-wait
+			// (real time, up to a few microseconds) shifts Close's phase against the loop's
+			for i, n := 0, rapid.IntRange(0, 4000).Draw(rt, "spin"); i < n; i++ {
+				spinSink.Add(1)
+			}
 			st := time.Now()
 			cerr := w.conn.Close()
 			d := time.Since(st)
@@ -495,3 +501,5 @@ func TestC09CloseAtRetry(t *testing.T) {
 		})
 	})
 }
+
+var spinSink atomic.Int64
